@@ -338,10 +338,15 @@ func checkHashmapSites(c *core.Ctx, only map[string]bool) int {
 			}
 			nHash++
 			key := p.FName(fn) + "/hashmap.New"
-			eq, ok1 := core.Unparen(call.Args[1]).(*ast.FuncLit)
-			hs, ok2 := core.Unparen(call.Args[2]).(*ast.FuncLit)
-			if !ok1 || !ok2 {
-				c.Unknown("USERS", key, call.Pos(), "equality/hash arguments are not function literals")
+			eq := funcValueLit(p, fn, call.Args[1])
+			hs := funcValueLit(p, fn, call.Args[2])
+			// the hash function itself handed over (octosql.HashManyValues) is the whole-key hash by definition
+			hashIsLibrary := false
+			if hf, ok := core.Callee(info, &ast.CallExpr{Fun: call.Args[2]}).(*types.Func); ok && hf.Pkg() != nil && hf.Pkg().Path() == core.ModPath+"/octosql" && (hf.Name() == "HashManyValues" || hf.Name() == "Hash") {
+				hashIsLibrary = true
+			}
+			if eq == nil || (hs == nil && !hashIsLibrary) {
+				c.Unknown("USERS", key, call.Pos(), "equality/hash arguments cannot be resolved to function bodies")
 				return true
 			}
 			// equality: result true iff every Compare is 0
@@ -383,6 +388,10 @@ func checkHashmapSites(c *core.Ctx, only map[string]bool) int {
 			}
 			c.Decide(bad == "", "USERS", key+"/eq", call.Pos(), cases, "equality ⇔ all Compare == 0", bad)
 			// hash: must return Hash()/HashManyValues of its parameter
+			if hashIsLibrary {
+				c.OK("USERS", key+"/hash", call.Pos(), 1, "the key hash function itself is handed over")
+				return true
+			}
 			in := newInterp(p, fn)
 			outs, err := runLit(in, hs, nil, "")
 			okHash := err == nil && len(outs) == 1 && outs[0].Kind == "return"
